@@ -907,12 +907,18 @@ def _tables(ctx, prog):
     exits = [e for e in rh.calls("sys.exit")]
     sv = rh.calls(PB + "save_df_as_table")
     ctx.require(bool(sv), "evo_res: save_df_as_table call not found")
+    def counts_labels(x: T) -> bool:
+        # how often a label occurs among all labels: keys.count(k), or
+        # collections.Counter(keys)[k]
+        return is_call_to(x, ".count") or (
+            x.op == "sub" and is_call_to(Interp.unname(x.args[0]),
+                                         "collections.Counter"))
     dup = [e for e in exits if e.idx < sv[0].idx and any(
-        is_call_to(x, ".count") for x in e.live.walk())]
+        counts_labels(x) for x in e.live.walk())]
     ok = bool(dup)
     if ok:
         cond = [a for a in tm.atoms(dup[0].live)
-                if any(is_call_to(x, ".count") for x in a.walk())][0]
+                if any(counts_labels(x) for x in a.walk())][0]
         ok = all(tm.fold(s.live, lambda t: True if t is cond else None)
                  is False for s in sv)
     ctx.ob("C13.6", sv[0], ok,
